@@ -27,6 +27,8 @@ use cassadilia_verif::session::{ModelRunner, Outcome};
 use cassadilia_verif::trace::{self, Ev, PowerSim};
 
 const WATCHDOG: Duration = Duration::from_secs(60);
+/// first watchdog of a fault-injection run (a history of ten operations: milliseconds when healthy)
+const FAIL_WATCHDOG: Duration = Duration::from_secs(25);
 
 #[derive(Clone)]
 struct Params {
@@ -177,6 +179,43 @@ fn build_case<K: TestKey>(p: &Params, id: u64) -> Case<K> {
             let op = g.next_op(&mut rng, &mr.model);
             mr.step(&op);
             ops.push(op);
+        }
+        if class == "rollover" && n_ops >= 2 && !mr.model.map.is_empty() {
+            // drain: a rollover checkpoint persists a non-empty state that includes key `ka`; `ka`
+            // is then removed on its own, and the NEXT operation that rolls the log over is the one
+            // that empties the index (an empty state to persist over a non-empty snapshot whose
+            // segment is pruned); one more put follows
+            let mut probe: ModelRunner<K> = ModelRunner::new();
+            let mut v = 0u64;
+            for op in &ops {
+                if probe.logs_record(op) {
+                    v += 1;
+                }
+                probe.step(op);
+            }
+            let mut pad = 0u32;
+            let mut push = |ops: &mut Vec<Op<K>>, mr: &mut ModelRunner<K>, op: Op<K>| {
+                mr.step(&op);
+                ops.push(op);
+            };
+            let mut pad_put = |pad: &mut u32| -> Op<K> {
+                *pad += 1;
+                Op::Put { key: K::bulk(901, 6), content: Content::new(950 + *pad, 14 + *pad as usize), chunks: vec![] }
+            };
+            while v % n_ops != 0 {
+                let op = pad_put(&mut pad);
+                push(&mut ops, &mut mr, op);
+                v += 1;
+            }
+            let ka = K::bulk(900, 6);
+            push(&mut ops, &mut mr, Op::Put { key: ka.clone(), content: Content::new(949, 41), chunks: vec![] });
+            push(&mut ops, &mut mr, Op::Remove { key: ka });
+            for _ in 0..n_ops.saturating_sub(2) {
+                let op = pad_put(&mut pad);
+                push(&mut ops, &mut mr, op);
+            }
+            push(&mut ops, &mut mr, Op::RemoveRange { lo: std::ops::Bound::Unbounded, hi: std::ops::Bound::Unbounded });
+            push(&mut ops, &mut mr, Op::Put { key: K::bulk(902, 6), content: Content::new(960, 18), chunks: vec![] });
         }
         if class == "checkpoint-shared" && !ops.iter().any(|o| matches!(o, Op::Checkpoint)) {
             ops.insert(ops.len() / 2, Op::Checkpoint);
@@ -636,6 +675,31 @@ fn judge_image<K: TestKey>(
                 diff0.iter().take(4).cloned().collect::<Vec<_>>().join("; ")
             ),
         ));
+    }
+    // --- what the recovering open left on disk (its own snapshot, the pruned log) is again the
+    // acknowledged history, with or without the in-flight operation
+    if format_applies {
+        match disk::decode_db(root, case.n_ops) {
+            Err(e) => out.push(Finding::new(&["C20"], "on-disk files are malformed after recovery", site, e)),
+            Ok(st) => {
+                let ok = st.map == model_disk_map(&exp.m0) || exp.m1.as_ref().is_some_and(|m| st.map == model_disk_map(m));
+                if !ok {
+                    out.push(Finding::new(
+                        &["C20"],
+                        "after recovery snapshot plus log decode to neither the acknowledged history nor that plus the in-flight operation",
+                        site,
+                        format!(
+                            "decoded {} keys (snapshot v{}, max v{}), acked model {} keys",
+                            st.map.len(),
+                            st.snapshot_version,
+                            st.max_version,
+                            exp.m0.map.len()
+                        ),
+                    ));
+                }
+                rep.count("format_checks_after_recovery", 1);
+            }
+        }
     }
     if !d.missing.is_empty() || !d.corrupted.is_empty() {
         out.push(Finding::new(
@@ -1345,6 +1409,29 @@ impl<K: TestKey> Fuzzy<K> {
     fn keys_possibly_present(&self) -> Vec<K> {
         self.map.iter().filter(|(_, c)| c.iter().any(|x| x.is_some())).map(|(k, _)| k.clone()).collect()
     }
+    /// Check what an independent decode of snapshot + log yields: every key holds one of its
+    /// candidates (C20: "snapshot plus log equal the acknowledged history", across restarts).
+    fn check_decoded(&self, decoded: &BTreeMap<Vec<u8>, (Hash32, u64)>, site: &str, when: &str, out: &mut Vec<Finding>) {
+        let mut all: BTreeSet<Vec<u8>> = self.map.keys().map(|k| k.kb()).collect();
+        all.extend(decoded.keys().cloned());
+        for kb in all {
+            let cands: Vec<Option<Vec<u8>>> =
+                self.map.iter().find(|(k, _)| k.kb() == kb).map(|(_, c)| c.clone()).unwrap_or_else(|| vec![None]);
+            let ok = match decoded.get(&kb) {
+                None => cands.contains(&None),
+                Some((h, size)) => cands.iter().any(|c| matches!(c, Some(v) if b3(v) == *h && v.len() as u64 == *size)),
+            };
+            if !ok {
+                out.push(Finding::new(
+                    &["C20"],
+                    &format!("snapshot plus log decode to a value no acknowledged history allows {when}"),
+                    site,
+                    format!("key {}: decoded {:?}", hex(&kb), decoded.get(&kb).map(|(h, s)| (hex(h)[..12].to_string(), *s))),
+                ));
+                return;
+            }
+        }
+    }
     /// Check an observable: every key must hold one of its candidates, reads must succeed.
     fn check(&self, o: &Observable, site: &str, failed_keys: &BTreeSet<Vec<u8>>, when: &str, out: &mut Vec<Finding>) {
         let mut all: BTreeSet<Vec<u8>> = self.map.keys().map(|k| k.kb()).collect();
@@ -1418,19 +1505,45 @@ fn fail_job<K: TestKey>(p: &Params, case: &Case<K>, tr: &TraceRun, k: u64, errno
         "--snap-limit".to_string(),
         (if p.thorough { 12 } else { 3 }).to_string(),
     ]);
-    let r = run_driver(
-        &p.tools,
-        &driver_args,
-        &ShimEnv { root: Some(root.clone()), fail_at: Some(k), errno: Some(errno), ..Default::default() },
-        WATCHDOG,
-    );
+    let shim = ShimEnv { root: Some(root.clone()), fail_at: Some(k), errno: Some(errno), ..Default::default() };
+    let mut r = run_driver(&p.tools, &driver_args, &shim, FAIL_WATCHDOG);
     rep.evaluations += 1;
     let label = tr.labels.get(&k).cloned().unwrap_or_else(|| "unknown".into());
     let site = format!("fault {} at {label}", if errno == 5 { "EIO" } else { "ENOSPC" });
     rep.count(&format!("site {label}"), 1);
     if r.timed_out {
-        rep.inconclusive.push(format!("fail run watchdog case {} k {k}", case.id));
-        return;
+        // One expired watchdog is no verdict (the machine may be loaded). The run is repeated
+        // from scratch with three times the budget; a history that takes milliseconds without
+        // the fault and is stuck in the same operation after 25 s and again after 75 s has an
+        // operation that does not return (bounded-progress reading of "never hangs").
+        let stuck_op = |ack: &Path| -> Option<usize> {
+            let a = parse_acklog(ack);
+            a.ops.iter().find(|(_, o)| o.end.is_none()).map(|(i, _)| *i)
+        };
+        let first = stuck_op(&ack);
+        fsx::rm_rf(&root);
+        fsx::rm_rf(&snap_dir);
+        let _ = std::fs::remove_file(&ack);
+        r = run_driver(&p.tools, &driver_args, &shim, FAIL_WATCHDOG * 3);
+        if r.timed_out {
+            let second = stuck_op(&ack);
+            if first.is_some() && first == second {
+                let i = first.unwrap();
+                rep.violate(
+                    Finding::new(
+                        &["C14", "C15"],
+                        "an operation did not return after a failed I/O call (two attempts, 25 s and 75 s; the history takes milliseconds without the fault)",
+                        &site,
+                        format!("operation {i} `{}` was entered and never returned", case.ops[i].enc().chars().take(80).collect::<String>()),
+                    ),
+                    replay_json(p, case, k, &site),
+                );
+            } else {
+                rep.inconclusive.push(format!("fail run watchdog twice, case {} k {k}, stuck at {first:?} / {second:?}", case.id));
+            }
+            return;
+        }
+        rep.count("watchdog_expired_once_then_completed", 1);
     }
     if r.code == Some(101) || r.signal.is_some() {
         rep.violate(
@@ -1630,6 +1743,10 @@ fn fail_job<K: TestKey>(p: &Params, case: &Case<K>, tr: &TraceRun, k: u64, errno
                 ));
             } else if let Some(o) = &d.dump1 {
                 fz.check(o, &site, &failed_keys, "after reopening", &mut findings);
+                if let Ok(st) = disk::decode_db(&root, case.n_ops) {
+                    fz.check_decoded(&st.map, &site, "after reopening", &mut findings);
+                    rep.count("format_checks_after_fault_and_reopen", 1);
+                }
                 if !d.missing.is_empty() || !d.corrupted.is_empty() {
                     findings.push(Finding::new(
                         &["C14"],
@@ -1671,6 +1788,11 @@ fn fail_job<K: TestKey>(p: &Params, case: &Case<K>, tr: &TraceRun, k: u64, errno
             ));
         } else if let Some(o) = &d.dump1 {
             fz_i.check(o, &site, failed_i, "after reopening a copy taken at a later operation boundary", &mut findings);
+            // the reopened copy (with the snapshot its open wrote) decodes to an allowed state too
+            if let Ok(st) = disk::decode_db(&snap_root, case.n_ops) {
+                fz_i.check_decoded(&st.map, &site, "after reopening a copy taken at a later operation boundary", &mut findings);
+                rep.count("format_checks_after_fault_and_reopen", 1);
+            }
             if !d.missing.is_empty() || !d.corrupted.is_empty() {
                 findings.push(Finding::new(
                     &["C14"],
@@ -1707,6 +1829,46 @@ fn build_fail_case<K: TestKey>(p: &Params, id: u64) -> Case<K> {
         return c;
     }
     let spare = K::bulk(777, 8);
+    if id % 10 == 7 {
+        // whatever fails is followed at once by an explicit checkpoint and a restart, then two
+        // more mutations and another restart, all within one segment: what the failed call left
+        // behind (an unused version number, a half-written record) meets checkpoint + replay twice
+        c.class = "checkpoint-then-restart";
+        c.n_ops = *rng.pick(&[7u64, 1000]);
+        let k = |i: usize| K::bulk(i, 5);
+        let reopen = Op::Reopen { flip_sync: false, pre_create: false };
+        c.ops = vec![
+            Op::Put { key: k(0), content: Content::new(710, 21), chunks: vec![] },
+            Op::Put { key: k(1), content: Content::new(711, 22), chunks: vec![] },
+            if rng.chance(1, 2) {
+                Op::Put { key: k(2), content: Content::new(712, 23), chunks: vec![] }
+            } else {
+                Op::Remove { key: k(1) }
+            },
+            Op::Checkpoint,
+            reopen.clone(),
+            Op::Remove { key: k(0) },
+            Op::Put { key: k(3), content: Content::new(713, 24), chunks: vec![] },
+            reopen,
+        ];
+        return c;
+    }
+    if id % 10 == 8 {
+        // the log walks through segments 0..=11 (two operations each, mostly one key): a rollover
+        // checkpoint that fails leaves two (or more) un-checkpointed segments behind, in
+        // particular 9 and 10, whose numeric and lexicographic orders differ; the history then
+        // goes on and is reopened
+        c.class = "many-segments-faulted";
+        c.n_ops = 2;
+        let keys = [K::bulk(1, 5), K::bulk(2, 5)];
+        let mut ops = Vec::new();
+        for i in 0..(23 + rng.usize(2)) {
+            let key = keys[usize::from(i % 4 == 2)].clone();
+            ops.push(Op::Put { key, content: Content::new(800 + i as u32, 12 + i), chunks: vec![] });
+        }
+        c.ops = ops;
+        return c;
+    }
     if c.class == "many-segments" {
         // every operation is followed by an explicit checkpoint: whatever fails (also inside a
         // rollover checkpoint), the caller's next step is a checkpoint "retry" with no mutation
